@@ -160,8 +160,10 @@ def case(spec):
     chain, placements, header_only, competitors = build(spec)
     work = harness.fresh(os.path.join(spec["work"], "c%d" % spec["n"]))
     d = os.path.join(work, "d")
-    datadir.write_datadir(d, COINS[coin], placements, header_only=header_only,
-                          index_opts={"shuffle_rng": random.Random(spec["n"])} if spec["n"] % 2 else None)
+    iopts = {"shuffle_rng": random.Random(spec["n"])} if spec["n"] % 2 else {}
+    if spec["n"] % 3 == 0 and not spec.get("bulk"):
+        iopts["churn"] = spec["n"]        # the database has a history (rewritten and deleted records); a reader sees the same content
+    datadir.write_datadir(d, COINS[coin], placements, header_only=header_only, index_opts=iopts or None)
     binary = core.build(spec.get("profile", "release"))
     sig = signature(spec)
     v, runs = [], 0
